@@ -322,6 +322,7 @@ struct QHarness {
   int nthreads = 2;
   vh::hvec<QOp> hist[MAXT + 1]; // per thread (index MAXT: main)
   bool drain = true;
+  bool large = false;
   int pushes_ok = 0;
 
   static bool lockfree_op(const POp& o) {
@@ -387,11 +388,29 @@ struct QHarness {
     ET<E>::setup();
     const bool c07 = vh::prop_is("C07");
     A::gen_params(par);
+    if (large) {
+      static const uint32_t ks[12] = {1, 2, 3, 255, 256, 257, 1000, 4096, 21846, 40000, 65535, 70000};
+      static const uint32_t ss[8] = {1, 2, 3, 4, 5, 16, 255, 1024};
+      par.k = ks[vrt::choose(12)];
+      par.segs = A::spec == S_KB ? ss[vrt::choose(8)] : 1;
+      // F9 (known finding, see known_findings.json): the packed 16-bit index of kirsch_bounded_kfifo_queue cannot
+      // address k*segments > 2^16 slots; such configurations are excluded by construction unless asked for
+      if (A::spec == S_KB && (uint64_t)par.k * par.segs > 65536 && !vrt::param("include_f9", 0)) {
+        vrt::label("excluded:F9_product_above_2^16");
+        while ((uint64_t)par.k * par.segs > 65536) par.segs = par.segs > 1 ? par.segs / 2 : (par.k /= 2, 1u);
+      }
+      if ((uint64_t)par.k * par.segs > 300000) par.segs = (uint32_t)(300000 / par.k);
+      if (par.segs == 0) par.segs = 1;
+      if ((uint64_t)par.k * par.segs > 65536) vrt::label("product_above_2^16");
+      if (par.k == 1) vrt::label("k=1");
+      if (par.segs == 1) vrt::label("one_segment");
+    }
     // ---- program (fixed shape; kind 0 = no operation)
-    nthreads = (A::spec == S_KB || A::spec == S_KK) ? 1 + (int)vrt::choose(4) : 2 + (int)vrt::choose(3);
+    nthreads = large ? 0 : (A::spec == S_KB || A::spec == S_KK) ? 1 + (int)vrt::choose(4) : 2 + (int)vrt::choose(3);
     static const uint32_t wk[3] = {2, 4, 3};
     int np = (int)vrt::choose(13);
-    if (A::spec == S_NIKB || A::spec == S_VYU || A::spec == S_KB) np = (int)vrt::choose(2 * 8 + 3);
+    if (large) np = 4 + (int)vrt::choose(par.k > 10000 ? 9 : 20);
+    else if (A::spec == S_NIKB || A::spec == S_VYU || A::spec == S_KB) np = (int)vrt::choose(2 * 8 + 3);
     nprefix = np;
     for (int i = 0; i < np; ++i) {
       prefix[i].kind = (uint8_t)(vrt::choose(4) == 0 ? K_POP : K_PUSH);
@@ -552,6 +571,8 @@ struct QHarness {
       if (inside > 0 && (allocs2 > allocs0 || A::spec == S_NIKB || A::spec == S_VYU || A::spec == S_KB)) vrt::nontrivial();
     } else if (vh::prop_is("C05")) {
       if (verdict_under_overlap && wrapped) vrt::nontrivial();
+    } else if (vh::prop_is("C06") && large) {
+      if (par.k == 1 || par.segs == 1 || (uint64_t)par.k * par.segs > 65536 || par.k >= 255) vrt::nontrivial();
     } else if (vh::prop_is("C06")) {
       if (overlap_seen && (overtook || node_boundary || verdict_under_overlap)) vrt::nontrivial();
     } else {
@@ -559,6 +580,88 @@ struct QHarness {
     }
   }
 };
+
+// single-threaded runs with extreme configurations (huge k, products k*segments around 2^16, k=1, one segment)
+template <class A>
+void run_q_large() {
+  vrt::TagScope ts(vrt::TAG_HARNESS);
+  auto* h = new QHarness<A>();
+  h->large = true;
+  vrt::set_alloc_tag(vrt::TAG_DEFAULT);
+  h->run();
+}
+
+// bulk mode: tens of thousands of pushes/pops of one shared raw pointer, single-threaded, counting model.
+// Reaches ring indices beyond 2^16 (the packed index of kirsch_bounded_kfifo_queue) and many segment hand-overs.
+template <class Q, bool BOUNDED>
+void run_bulk() {
+  static int pointee = 42;
+  static const uint32_t ks[6] = {1, 2, 3, 5, 16, 64};
+  static const uint32_t ss[9] = {1, 2, 3, 255, 4096, 21846, 33000, 65536, 70000};
+  uint32_t k = ks[vrt::choose(6)];
+  uint32_t segs = BOUNDED ? ss[vrt::choose(9)] : 1;
+  if (BOUNDED && (uint64_t)k * segs > 65536 && !vrt::param("include_f9", 1)) {
+    vrt::label("excluded:F9_product_above_2^16");
+    segs = 65536 / k;
+  }
+  uint64_t cap = (uint64_t)k * segs;
+  Q* q;
+  if constexpr (BOUNDED)
+    q = new Q(k, segs);
+  else
+    q = new Q(k);
+  uint64_t count = 0, budget = 140000 / (k < 4 ? 1 : k / 2), total_pushed = 0;
+  int phases = 1 + (int)vrt::choose(6);
+  vrt::desc("bulk k=%u segments=%u:", k, segs);
+  for (int ph = 0; ph < phases && budget > 0; ++ph) {
+    bool push = vrt::choose(3) != 0;
+    static const uint64_t ns[7] = {1, 2, 17, 300, 5000, 66000, 140000};
+    uint64_t n = ns[vrt::choose(7)];
+    if (vrt::choose(4) == 0) n = cap + 1;
+    if (n > budget) n = budget;
+    budget -= n;
+    vrt::desc(" %s x%lu", push ? "push" : "pop", (unsigned long)n);
+    for (uint64_t i = 0; i < n; ++i) {
+      vrt::op_begin(1);
+      if (push) {
+        bool ok = true;
+        if constexpr (BOUNDED)
+          ok = q->try_push(&pointee);
+        else
+          q->push(&pointee);
+        if (ok) {
+          count++;
+          total_pushed++;
+          if (BOUNDED && count > cap) vrt::fail("capacity_exceeded", "bulk: %lu elements accepted by a queue of k*segments=%lu", (unsigned long)count, (unsigned long)cap);
+        } else if (count < (uint64_t)(segs - 1) * k + 1)
+          vrt::fail("spurious_full", "bulk: try_push failed with %lu stored elements, k=%u segments=%u (needs at least %lu)", (unsigned long)count, k, segs,
+                    (unsigned long)((uint64_t)(segs - 1) * k + 1));
+      } else {
+        int* out = nullptr;
+        bool ok = (i & 1) ? q->try_pop(out) : [&] {
+          auto r = q->pop();
+          if (r) out = *r;
+          return (bool)r;
+        }();
+        if (ok) {
+          if (out != &pointee) vrt::fail("invented_element", "bulk: pop returned a pointer that was never pushed");
+          if (count == 0) vrt::fail("invented_element", "bulk: pop succeeded on an empty queue");
+          count--;
+        } else if (count != 0)
+          vrt::fail("spurious_empty", "bulk: pop reported empty with %lu stored elements (k=%u segments=%u, %lu pushed so far)", (unsigned long)count, k, segs,
+                    (unsigned long)total_pushed);
+      }
+      vrt::op_end();
+    }
+  }
+  vrt::desc("\n");
+  // drain a little and destroy
+  delete q;
+  vrt::fp(vh::hmix(k, segs) ^ vh::hmix(total_pushed, count));
+  if (total_pushed > 65536) vrt::label("bulk:more_than_2^16_pushes");
+  if (cap > 65536) vrt::label("product_above_2^16");
+  if (total_pushed > (uint64_t)k * 3 || cap > 65536) vrt::nontrivial();
+}
 
 template <class A>
 void run_q() {
@@ -635,6 +738,11 @@ const vrt::Cfg cfgs[] = {
   QC("kk_raw_stamp", KK<Tracked* COMMA STAMP>, Tracked*, S_KK, "C06,C07,kk,quick"),
   QC("kk_up_qsbr", KK<UP COMMA QSBR>, UP, S_KK, "C06,C07,kk"),
   QC("kk_up_he", KK<UP COMMA HEd>, UP, S_KK, "C06,C07,kk"),
+  vrt::Cfg{"kb_bulk", &run_bulk<kirsch_bounded_kfifo_queue<int*>, true>, "large"},
+  vrt::Cfg{"kk_bulk_hp", &run_bulk<kirsch_kfifo_queue<int* COMMA policy::reclaimer<HPd>>, false>, "large"},
+  vrt::Cfg{"kb_large_raw", &run_q_large<Adapter<KB<Tracked*>, Tracked*, S_KB>>, "large"},
+  vrt::Cfg{"kb_large_up", &run_q_large<Adapter<KB<UP>, UP, S_KB>>, "large"},
+  vrt::Cfg{"kk_large_up_hp", &run_q_large<Adapter<KK<UP COMMA HPd>, UP, S_KK>>, "large"},
   QC("kb_up", KB<UP>, UP, S_KB, "C06,C07,kb,quick"),
   QC("kb_raw", KB<Tracked*>, Tracked*, S_KB, "C06,C07,kb,quick"),
 #else
